@@ -261,3 +261,23 @@ def trail_cover_exists(trails, need, k):
         if e in t and trail_cover_exists(trails, need - t, k - 1):
             return True
     return False
+
+
+def rescale_feasible(cls, args, scales=(4, 16, 64)):
+    """Re-solve a cyclic instance with all weights multiplied by c (C04: only the weight-derived repetition caps
+    change).  Returns ("feasible", c) for the first c that is solved, ("infeasible", None) if every c is proven
+    infeasible, ("inconclusive", None) if some run hit the time limit and none was solved."""
+    import flowpaths as fp
+    G = args["G"]; incon = False
+    for c in scales:
+        b = dict(args); H = G.copy()
+        for e in H.edges():
+            if "flow" in H.edges[e]:
+                H.edges[e]["flow"] = H.edges[e]["flow"] * c
+        b["G"] = H
+        m2 = getattr(fp, cls)(**clean_args(b)); m2.solve()
+        if m2.is_solved():
+            return "feasible", c
+        if m2.solver.get_model_status() != "kInfeasible":
+            incon = True
+    return ("inconclusive", None) if incon else ("infeasible", None)
